@@ -54,7 +54,7 @@ class RFile(object):
 # --------------------------------------------------------------------------
 # the shared file universe U (DESIGN section 3)
 
-KINDS = ('A', 'M', 'B', 'X', 'Zx', 'S', 'Ch', 'M0', 'Mn', 'Sw')
+KINDS = ('A', 'M', 'B', 'X', 'Zx', 'S', 'Ch', 'M0', 'Mn', 'Sw', 'Kxx')
 _KIDX = {k: i + 1 for i, k in enumerate(KINDS)}
 XCOORD = {1: [10.], 2: [10., 20.], 3: [10., 20., 40.], 4: [10., 20., 40., 50.]}
 
@@ -101,6 +101,10 @@ def ufile(recipe):
         elif k == 'Zx':
             f.vars['Zx'] = RVar(('z', 'x'), _ramp('Zx', (lens['z'], lens['x']), 'f'),
                                 attrs=OrderedDict([('units', 'm')]))
+        elif k == 'Kxx':
+            # a variable that carries one dimension on two axes (averaging kernel, covariance matrix)
+            f.vars['Kxx'] = RVar(('t', 'x', 'x'), _ramp('Kxx', (lens['t'], lens['x'], lens['x']), 'd'),
+                                 attrs=OrderedDict([('units', '1')]))
         elif k == 'S':
             f.vars['S'] = RVar((), _ramp('S', (), 'i'), attrs=OrderedDict([('units', '1')]))
         elif k == 'M0':
